@@ -539,6 +539,57 @@ func errGuardedStrict(fn *ssa.Function, call *ssa.Call, target ssa.Instruction) 
 	return errGuarded(fn, call, ev, func(i ssa.Instruction) bool { return i == target })
 }
 
+// errNilOnEveryPathTo: the same guarantee as errGuardedStrict, decided path by path: on every feasible
+// path of fn that executes target, call was executed before it and in between an edge established that the
+// call's error is nil. Path by path a φ is the value that came in over the edge the path took, which is what
+// it takes to see that an error variable shared by several fallible steps (each later step run only while the
+// variable is still nil, one test after the last) is, where it is found nil, the last step's error — a path
+// that skipped the call carries an earlier step's non-nil error into the test and is infeasible (pathAtoms).
+// False when the paths cannot be enumerated.
+func errNilOnEveryPathTo(fn *ssa.Function, call *ssa.Call, target ssa.Instruction) bool {
+	ev := errResult(call)
+	if ev == nil {
+		return false
+	}
+	all := true
+	complete := enumPaths(fn, 1, 5000, func(p *Path) {
+		at := -1
+		for i, b := range p.Blocks {
+			if b == target.Block() {
+				at = i
+			}
+		}
+		if at < 0 || !all {
+			return
+		}
+		if _, feasible := pathAtoms(p); !feasible {
+			return
+		}
+		from := -1
+		for i := 0; i <= at; i++ {
+			if p.Blocks[i] == call.Block() && (i < at || idxIn(call.Block(), call) < idxIn(target.Block(), target)) {
+				from = i
+			}
+		}
+		if from < 0 {
+			all = false
+			return
+		}
+		for i := from; i < at; i++ {
+			x, op, y, ok := edgeFact(p.Blocks[i], p.Blocks[i+1])
+			if !ok || op != token.EQL {
+				continue
+			}
+			x, y = resolveAt(p, i, x), resolveAt(p, i, y)
+			if (x == ev && isNilConst(y)) || (y == ev && isNilConst(x)) {
+				return
+			}
+		}
+		all = false
+	})
+	return complete && all
+}
+
 // rootedPath renders a FieldAddr chain with the root parameter's *name* (not its type), so
 // that all.pdrs[].ctrID and updated.pdrs[].ctrID differ.
 func rootedPath(v ssa.Value) string {
@@ -841,7 +892,7 @@ func ruleC15TunnelRelease(w *World, r *Report, P string) {
 		if !ok || !strings.HasSuffix(symOf(mu.Map).String(), "UP4.tunnelPeerIDs") {
 			return
 		}
-		g := apply != nil && errGuardedStrict(f, apply, mu)
+		g := apply != nil && (errGuardedStrict(f, apply, mu) || errNilOnEveryPathTo(f, apply, mu))
 		r.check(g, "R15.3", fn, "tunnel peer registered only after its write succeeded", w.Pos(mu.Pos()), "dominated by ApplyTableEntries == nil", "the tunnel peer is registered before the write: a failed write leaves a registered peer / lets the error path release a shared id")
 	})
 }
